@@ -371,11 +371,23 @@ class ArrayExpr(SingletonExpr):
         """Whether this node observes a dependency's block grid."""
         return False
 
-    def _has_grid_sensitive_dependent(self, expr, dependents):
+    def _has_grid_sensitive_dependent(self, expr, dependents, _seen=None):
+        """Does anything that observes ``expr``'s block grid sit above it?
+
+        A consumer holding a per-block literal (block_info payloads, explicit
+        ``adjust_chunks`` tuples) observes its input's grid directly; every
+        node between it and ``expr`` passes the grid on (its own blocks are
+        cut from its input's), so the question is asked again at each level."""
+        _seen = set() if _seen is None else _seen
         for ref in dependents.get(expr._name, ()):
             node = ref()
+            if node is None or node._name in _seen:
+                continue
+            _seen.add(node._name)
             requires = getattr(node, "_requires_grid_preservation", None)
             if requires is not None and requires(expr):
+                return True
+            if self._has_grid_sensitive_dependent(node, dependents, _seen):
                 return True
         return False
 
